@@ -4,6 +4,7 @@ import (
 	"encoding/hex"
 	"errors"
 	"fmt"
+	"hash/fnv"
 	"html/template"
 	"regexp"
 	"sort"
@@ -647,7 +648,22 @@ func (c RCase) CoqTerm(o RObs) string {
 		}
 		lgs[i] = fmt.Sprintf("(%s, %s)", cqN(uint64(e.Id)), cqList(as))
 	}
-	return fmt.Sprintf("(mkrcase %s %s %s %s %s)", cqBytes(c.Tmpl), cqList(bs), cqList(ps), obs, cqList(lgs))
+	// long binding / partial lists are shared by many cases of a shard: hoisted into one
+	// Definition per distinct list (see flushShard), which makes the case files much smaller
+	return fmt.Sprintf("(mkrcase %s %s %s %s %s)", cqBytes(c.Tmpl), hoist("list (bytes * vdesc)", cqList(bs)), hoist("list (bytes * bytes)", cqList(ps)), obs, cqList(lgs))
+}
+
+var hoisted = map[string][2]string{} // name -> (type, term)
+
+func hoist(ty, term string) string {
+	if len(term) < 200 {
+		return term
+	}
+	h := fnv.New64a()
+	h.Write([]byte(term))
+	name := fmt.Sprintf("hoisted_%x", h.Sum64())
+	hoisted[name] = [2]string{ty, term}
+	return name
 }
 
 var helperNames []string
